@@ -264,3 +264,73 @@ Proof.
   destruct new_ex as (H1 & H2 & H3 & _). destruct op_getitems_ex as (H4 & H5 & _).
   split; [exact H1|]. split; [exact H2|]. split; [exact H3|]. split; [exact H4|exact H5].
 Qed.
+
+(* ================================================================== second extension: the repair "integer index arrays and lists
+   are not mistaken for all-True masks" (psiaudio fix-C11idx).  Proofs in PData/ProofsX2.v.  [getitem_int_array rep x zs]
+   models x[np.array(zs)] with a SOLE 1-D integer ndarray of any integer dtype (inside a tuple such an array is the
+   item IList zs already); [sole_list zs] is the python list x[zs]; rep = true the repaired code, false the code before. *)
+From PV Require Import PData.ProofsX2.
+
+(* a sole integer ndarray (with or without a 0, empty or not) IS the python list: data, s0, rate, labels, metadata and
+   every error, on every array and along chains - so every theorem above about list indices covers integer arrays *)
+Theorem C11_int_array_is_list : forall x zs, getitem_int_array true x zs = getitem x (sole_list zs).
+Proof. exact int_array_is_list. Qed.
+Print Assumptions C11_int_array_is_list.
+Theorem C11_int_arrays_are_lists : forall ixs x, getitems_x true x ixs = getitems true x (map as_index ixs).
+Proof. exact int_arrays_are_lists. Qed.
+Print Assumptions C11_int_arrays_are_lists.
+(* C11_getitem_regular for integer arrays *)
+Theorem C11_int_array_regular : forall x zs k per,
+  wf x -> denotes (ndim x) (sole_list zs) k per -> valid_on (shape x) per ->
+  exists d0 d', np_regular (dat x) per = Some d0 /\ wrap_new k d0 = Some d' /\
+                getitem_int_array true x zs = RArr (spec_result x k per d').
+Proof. exact int_array_regular. Qed.
+Print Assumptions C11_int_array_regular.
+(* spelled out: on the first axis of a 2-D / 3-D array the array selects the channel labels / metadata entries like the
+   list (order and repetitions of zs), the time base is untouched and the counts equal the axis lengths *)
+Theorem C11_int_array_selects : forall x zs,
+  wf x -> 2 <= ndim x -> forallb (idx_ok (hd 0 (shape x))) zs = true ->
+  exists r, getitem_int_array true x zs = RArr r /\ wf r /\
+    s0 r = s0 x /\ fsn r = fsn x /\ fsd r = fsd x /\ n_time r = n_time x /\ hd 0 (shape r) = zlen zs /\
+    (ndim x = 2 -> chan r = sel_lab (IList zs) (chan x) /\ meta r = meta x) /\
+    (ndim x = 3 -> meta r = sel_lab (IList zs) (meta x) /\ chan r = chan x).
+Proof. exact int_array_selects. Qed.
+Print Assumptions C11_int_array_selects.
+(* before the repair: x3[np.array([1, 2])] on 3 epochs: 2 epochs, all 3 metadata entries *)
+Theorem C11_index_array_unrepaired_refuted :
+  exists x zs r, wf x /\ forallb (idx_ok (hd 0 (shape x))) zs = true /\
+    getitem_int_array false x zs = RArr r /\ hd 0 (shape r) = 2 /\ meta r = meta x /\ meta x = LMany [90; 91; 92] /\ ~ wf r /\
+    exists r', getitem_int_array true x zs = RArr r' /\ meta r' = LMany [91; 92] /\ wf r'.
+Proof. exact index_array_unrepaired_refuted. Qed.
+Print Assumptions C11_index_array_unrepaired_refuted.
+
+(* a list on the time axis is accepted by the fix-up iff it is an all-True mask (a list of ints only when empty), and
+   then s0 and the rate are unchanged (that the mask has the length of the axis is NumPy's check: np_getitem) *)
+Theorem C11_fix_time_list : forall x,
+  (forall zs r, fix_time true x (NListZ zs) = inr r <-> zs = [] /\ r = (s0 x, fsd x)) /\
+  (forall bs r, fix_time true x (NListB bs) = inr r <-> all_true bs = true /\ r = (s0 x, fsd x)) /\
+  (forall zs, zs <> [] -> fix_time true x (NListZ zs) = inl EValue) /\
+  (forall bs, all_true bs = false -> fix_time true x (NListB bs) = inl EValue).
+Proof. exact fix_time_list. Qed.
+Print Assumptions C11_fix_time_list.
+(* for every index expression of the language and every array *)
+Theorem C11_time_list_mask_only : forall x ix s es cs t r,
+  normalize_index true ix (ndim x) = inr s -> split3 s = Some (es, cs, t) -> nlist t = true ->
+  getitem x ix = RArr r ->
+  mask_only t /\ s0 r = s0 x /\ fsn r = fsn x /\ fsd r = fsd x.
+Proof. exact time_list_mask_only. Qed.
+Print Assumptions C11_time_list_mask_only.
+(* before the repair: x1[[1, 2, 3]] picks samples 1, 2, 3 and keeps s0 *)
+Theorem C11_time_list_unrepaired_refuted :
+  exists x zs r, wf x /\ getitem_unrepaired x (sole_list zs) = RArr r /\ s0 r = s0 x /\
+    flat (dat r) = [1; 2; 3] /\ taxis r <> map (fun i => s0 x + i) zs /\
+    getitem x (sole_list zs) = RErr EValue.
+Proof. exact time_list_unrepaired_refuted. Qed.
+Print Assumptions C11_time_list_unrepaired_refuted.
+Example C11_time_list_ex :
+  let x := mk [2; 3] 5 1000 1 (LMany [70; 71]) (LOne 90) in
+  let ix := tuple [full; IMask [true; true; true] false] in
+  wf x /\ normalize_index true ix (ndim x) = inr [nfull; NListB [true; true; true]] /\
+  getitem x ix = RArr x /\ getitem x (tuple [full; IList [1; 2]]) = RErr EValue /\
+  getitem_int_array true x [1; 1] = mkv [2; 3] [3; 4; 5; 3; 4; 5] 5 1000 1 (LMany [71; 71]) (LOne 90).
+Proof. exact time_list_ex. Qed.
